@@ -263,7 +263,7 @@ func tqOracle(tc tqCase, o *tqObs) (c06, c15 []string) {
 				switch p[1] {
 				case "garbage": // no usable delay: nothing to wait for beyond the ordinary back-off
 				case "date": // the server recorded the instant its HTTP-date names
-					if nb, ok := o.NotBefore[oid]; ok && nb > b.At && nb < b.At+2500 {
+					if nb := b.DateNB; nb > b.At && nb < b.At+2500 {
 						notBefore[oid] = nb - 10
 					}
 				default:
